@@ -146,6 +146,8 @@ def sites_of(F, fn):
                                 {"args": args, "container": ga[0], "index_ty": ga[1] if len(ga) > 1 else "?"}))
                 continue
             for suf, why in PANICKING_STD.items():
+                if suf in ("::abs", "::pow", "::div_euclid", "::rem_euclid") and "impl f" in path:
+                    continue   # float versions do not panic
                 if path.endswith(suf) and not any(path.startswith(np) or np in path.split("<")[0] for np in NON_PANICKING) \
                         and path not in F.fns:
                     # HashMap::remove etc. are excluded above
